@@ -6,8 +6,13 @@
    lexer and parser are inside the line-table critical section at once.  For this channel/mutex-only
    system that coincides with the happens-before definition; the Go memory model beyond that and the
    race detector's view are outside the model (partial).  Concurrent callers: Execute never writes a
-   Prog field -- in the model `execute` is a function of the program (see C16/C19). *)
+   Prog field -- in the model `execute` is a function of the program, and C12_execute_readonly states it
+   of the SOURCE: the table of assignments through a Prog in machine.go, oplogic.go, disasm.go and
+   Execute/printXStats (regenerated from /repo by tools/gentables on every run) is empty, and no
+   package-level variable is assigned after init. *)
+From Coq Require Import List String.
 From BCL Require Import Model.Proto Proofs.ProtoProofs.
+From BCL Require Gen.GenTables Spec.Pinned Proofs.TieGlobals.
 
 Theorem C12_pipeline_race_free : forall s, reachable s -> racy s = false.
 Proof. exact ProtoProofs.C12_mutex. Qed.
@@ -27,6 +32,16 @@ Print Assumptions C12_prog_published.
 Theorem C12_prog_seen_on_return : forall s, reachable s -> returned s = true -> prog_seen s = Some true.
 Proof. exact ProtoProofs.C12_prog_seen_on_return. Qed.
 Print Assumptions C12_prog_seen_on_return.
+
+Theorem C12_execute_readonly :
+  GenTables.prog_writes_in_execution = nil /\
+  forallb (fun p => negb (snd p)) GenTables.globals_written_after_init = true.
+Proof.
+  split.
+  - rewrite TieGlobals.tie_prog_readonly. exact TieGlobals.prog_readonly_in_execution.
+  - rewrite TieGlobals.tie_globals. exact TieGlobals.no_global_written.
+Qed.
+Print Assumptions C12_execute_readonly.
 
 (* non-vacuity: a run with diagnostics formatted while later chunks arrive reaches its end *)
 Example C12_example :
